@@ -132,6 +132,15 @@ class ColumnsInit:
     def __init__(self, pred):
         self.pred = pred
 
+    def __ror__(self, other):
+        # {'it': ...} | {v: [] for v in var}
+        if isinstance(other, dict):
+            return SResult(dict(other), self.pred)
+        return NotImplemented
+
+    def __bool__(self):
+        raise SX.PathAbort('truth value of the symbolic column set')
+
 
 class ColRef:
     def __init__(self, res, q):
@@ -160,6 +169,9 @@ class ResKeys:
     def __init__(self, res):
         self.res = res
 
+    def __bool__(self):
+        raise SX.PathAbort('truth value of the key view of the result')
+
     def __contains__(self, name):
         if isinstance(name, str) and name in self.res.concrete:
             return True
@@ -180,6 +192,9 @@ class SResult:
 
     def keys(self):
         return ResKeys(self)
+
+    def __bool__(self):
+        return True          # the result always holds the 'it' entry
 
     def __contains__(self, name):
         return ResKeys(self).__contains__(name)
@@ -241,6 +256,9 @@ class RFileKeys:
 
     def __iter__(self):
         raise SX.PathAbort('iteration over the datasets of a file outside a loop contract')
+
+    def __bool__(self):
+        raise SX.PathAbort('truth value of the dataset list of a file')
 
 
 class RFile:
